@@ -1,7 +1,7 @@
 (* SI/Props.v — theorems of property C01 (snapshot isolation and external consistency), over the MVCC store
    model Mvcc/Model.v ([step], [run]) for ALL command sequences obeying the timestamp discipline [oracle_ts]
    (Mvcc/Spec.v), plus an abstract event order for external consistency. Definitions: SI/Model.v. *)
-From Verif Require Import SI.Model SI.ProofsTrans SI.ProofsRead SI.ProofsKeyed SI.AsyncStore SI.TwoPC SI.ProofsWW SI.ProofsIns SI.ProofsInsPoint SI.ProofsLockRead SI.Resolver SI.Push SI.ProofsExt SI.ProofsOracle.
+From Verif Require Import SI.Model SI.ProofsTrans SI.ProofsRead SI.ProofsKeyed SI.AsyncStore SI.TwoPC SI.Committer SI.ProofsWW SI.ProofsIns SI.ProofsInsPoint SI.ProofsLockRead SI.Resolver SI.Push SI.ProofsExt SI.ProofsOracle.
 
 (* ---- 1. reads are a function of the committed history restricted to commit ts <= read ts *)
 (* a point get on any reachable store answers either the history read at its read ts (at [eff_ts], which is the
@@ -159,7 +159,10 @@ Print Assumptions C01_insert_commit_point.
 
 (* ---- 4. external consistency: oracle strictly increasing, start ts fetched inside Begin, acknowledged commit
    ts at most d above a timestamp issued before the acknowledgement (d = 0: 2PC, d = 1: async commit / 1PC),
-   every Begin call of y after the acknowledgement of x: then commit(x) < start(y) + d *)
+   every Begin call of y after the acknowledgement of x: then commit(x) < start(y) + d.
+   This is the "rules => order" form over an abstract event list: [commit_rule d] is a hypothesis here; it is DERIVED from the
+   committer model for 2PC (C01_committer_external_consistency) and from the store mechanics for async commit / 1PC
+   (C01_async_external_consistency) *)
 Theorem C01_external_consistency : forall tr d j x c r y s,
   oracle_monotonic tr = true -> begin_rule tr = true -> commit_rule d tr = true ->
   nth_error tr j = Some (EvAck x c) -> nth_error tr r = Some (EvBeginRet y s) -> begins_after tr j y = true ->
@@ -167,11 +170,38 @@ Theorem C01_external_consistency : forall tr d j x c r y s,
 Proof. exact ext_consistent. Qed.
 Print Assumptions C01_external_consistency.
 
-(* 2PC: commit_rule 0 is not assumed but derived from the joint-trace rules *)
+(* 2PC, trace-rule form: "trace rule => order". [trules] CHECKS at TAck that the commit ts had been issued (c <= T) and at TTso
+   that the oracle increases, so this statement is arithmetic on the rule the property demands of the client; the rule
+   itself is derived from the committer model in C01_committer_trules / C01_committer_external_consistency below, and is
+   checked on the implementation's traces by the txn harness (C04 acceptor: GetTs after the prewrite acks) *)
 Theorem C01_twopc_external_consistency : forall k p c q s r,
   trules k [] 0 [] (p ++ TAck c :: q ++ TTso s :: r) = true -> c < s.
 Proof. exact twopc_external_consistency. Qed.
 Print Assumptions C01_twopc_external_consistency.
+
+(* 2PC from the CLIENT MODEL (SI/Committer.v): [maccept] generates the joint traces of modelled committers - prewrites only
+   before the commit ts is fetched, the commit ts IS the oracle's answer to the committer's own request, commit requests
+   carry exactly it, success is acknowledged only after a commit request succeeded; everybody else's requests carry no
+   commit ts. Every generated trace obeys the trace rules [trules] for every key (T2, T3 derived; T1 = the oracle is
+   strictly increasing stays an assumption about PD, checked by the acceptor) ... *)
+Theorem C01_committer_trules : forall tr k, maccept [] 0 [] tr = true -> trules k [] 0 [] (map to_tev tr) = true.
+Proof. exact committer_trules. Qed.
+Print Assumptions C01_committer_trules.
+
+(* ... hence: every timestamp issued after a modelled 2PC committer returned success is above its commit ts ... *)
+Theorem C01_committer_external_consistency : forall p x c q s r,
+  maccept [] 0 [] (p ++ MAck x c :: q ++ MTso s :: r) = true -> c < s.
+Proof. exact committer_external_consistency. Qed.
+Print Assumptions C01_committer_external_consistency.
+
+(* ... and reads are stable in every trace of modelled committers (left: GC safe point, the lock met, oracle_ts) *)
+Theorem C01_committer_read_stable : forall A B k t,
+  maccept [] 0 [] (A ++ B) = true -> t <= tlast 0 (map to_tev A) ->
+  oracle_ts (cmds_of (map to_tev A) ++ cmds_of (map to_tev B)) = true -> forallb (gc_ok t) (cmds_of (map to_tev B)) = true ->
+  met_rule (run (cmds_of (map to_tev A))) k t (flat_map cmd_pairs (cmds_of (map to_tev B))) = true ->
+  read_at (run (cmds_of (map to_tev A) ++ cmds_of (map to_tev B))) k t = read_at (run (cmds_of (map to_tev A))) k t.
+Proof. exact committer_read_stable. Qed.
+Print Assumptions C01_committer_read_stable.
 
 (* async commit / 1PC: commit_rule 1 is not assumed but derived from the store mechanics along a joint trace of oracle
    issues, store requests and acknowledgements ([jrules]: oracle increasing; request timestamps were issued earlier,
@@ -412,6 +442,16 @@ Example ex_trules : trules 1 [] 0 [] (ex_trace_A ++ ex_trace_B) = true /\ tlast 
   /\ oracle_ts (cmds_of ex_trace_A ++ cmds_of ex_trace_B) = true /\ forallb (gc_ok (T 5)) (cmds_of ex_trace_B) = true
   /\ met_rule (run (cmds_of ex_trace_A)) 1 (T 5) (flat_map cmd_pairs (cmds_of ex_trace_B)) = true
   /\ pl_run 1 [] 0 [] (ex_trace_A ++ ex_trace_B) = [(T 6, T 6); (T 1, T 1)].
+Proof. vm_compute. repeat split. Qed.
+(* the same history generated by the committer model; a committer that fetches its commit ts before prewriting is not one *)
+Definition ex_mtrace : list mev :=
+  [ MTso (T 1); MPrewrite (T 1) (Prewrite [mkMut MPut 1 17 AsNone false] 1 (T 1) 0 1 0 false); MGetTs (T 1) (T 3);
+    MCommit (T 1) (Commit [1] (T 1) (T 3)); MAck (T 1) (T 3); MTso (T 5); MOther (Get 1 (T 5) []);
+    MTso (T 6); MPrewrite (T 6) (Prewrite [mkMut MPut 1 33 AsNone false] 1 (T 6) 0 1 0 false); MGetTs (T 6) (T 8);
+    MCommit (T 6) (Commit [1] (T 6) (T 8)); MAck (T 6) (T 8) ].
+Example ex_committer : maccept [] 0 [] ex_mtrace = true /\ map to_tev ex_mtrace = ex_trace_A ++ ex_trace_B
+  /\ maccept [] 0 [] [MTso (T 4); MGetTs (T 4) (T 4 + 1); MPrewrite (T 4) (Prewrite [mkMut MPut 1 33 AsNone false] 1 (T 4) 0 1 0 false)] = false
+  /\ maccept [] 0 [] [MTso (T 4); MPrewrite (T 4) (Prewrite [mkMut MPut 1 33 AsNone false] 1 (T 4) 0 1 0 false); MAck (T 4) (T 4 + 1)] = false.
 Proof. vm_compute. repeat split. Qed.
 (* (T2) is needed: a commit ts fetched before the prewrite was executed (here: before the reader's ts) breaks the read *)
 Definition ex_trace_bad : list tev :=
